@@ -195,6 +195,12 @@ CONTROLS = [
         (PPF, '        if !define.arguments.is_empty() && no_args {\n            return Err(Error::DefineNoArgs(define.identifier.clone()));\n        }\n\n', '', 1),
         (PPF, '                    } else {\n                        return Err(Error::DefineArgNotFound(String::from(arg)));',
          '                    } else if no_args {\n                        return Err(Error::DefineNoArgs(define.identifier.clone()));\n                    } else {\n                        return Err(Error::DefineArgNotFound(String::from(arg)));', 1)]),
+    ('g22-star-chunk-consumes-next-character', 'G22', 'syn', 'block_comment:partial-closer-consumes-next', [(PARSER + 'general/comments.rs',
+        'terminated(tag("*"), peek(not(tag("/")))),', 'recognize(pair(tag("*"), none_of("/"))),', 1)]),
+    ('x4-define-text-cut-under-strip', 'X4', 'syn', 'strip-changes-arm', [(PPF,
+        '                let range = Range::new(locate.offset, locate.offset + locate.len);\n                ret.push(locate.str(&s), Some((path.as_ref(), range)));\n            }\n            NodeEvent::Enter(RefNode::IncludeCompilerDirective(x)) if !ignore_include => {',
+        '                let mut kept = locate.str(&s);\n                if strip_comments {\n                    if let Some(pos) = kept.find("//") {\n                        kept = &kept[..pos];\n                    }\n                }\n                let range = Range::new(locate.offset, locate.offset + kept.len());\n                ret.push(kept, Some((path.as_ref(), range)));\n            }\n            NodeEvent::Enter(RefNode::IncludeCompilerDirective(x)) if !ignore_include => {', 1)]),
+    ('w3-origin-of-previous-byte', 'W3', 'syn', 'error-mapping', [(API, 'if let Some(origin) = text.origin(pos) {', 'if let Some(origin) = text.origin(pos.saturating_sub(1)) {', 1)]),
     ('s1-version-stack-not-reset', 'S1', 'mir', 'not-reset:CURRENT_VERSION', [(PARSER + 'lib.rs', '    clear_directive();\n    clear_version();\n}', '    clear_directive();\n}', 1)]),
     ('s2-grammar-function-exported', 'S2', 'mir', 'source_text', [(PARSER + 'source_text/system_verilog_source_text.rs', 'pub(crate) fn source_text(s: Span)', 'pub fn source_text(s: Span)', 1)]),
     ('s3-scope-leak-on-error-path', 'S3', 'mir', 'text_macro_usage:unbalanced', [(CD,
